@@ -4,6 +4,7 @@ From Coq Require Import List NArith ZArith Bool.
 From PB Require Import Base.PBytes Base.Utf8Model Wire.WireModel Text.TextStrModel Text.TextStrP
   Wire.WireGrammar Text.TextUnknownModel Text.TextUnknownP Text.TextUnknownWireP
   Text.TextNumModel Text.TextNumP.
+From PB Require Import Base.GoInt Text.TextEscGoSup Gen.TextEscGo Text.TextEscGoP Text.TextEscGoAppP.
 Import ListNotations.
 Open Scope N_scope.
 
@@ -105,6 +106,50 @@ Theorem C25_float_text_syntax_ok :
 Proof. exact float_text_syntax_ok. Qed.
 Print Assumptions C25_float_text_syntax_ok.
 
+(* ---- Tier T: the Go source of appendString / indexNeedEscapeInString itself ----
+   Gen/TextEscGo.v is regenerated from internal/encoding/text/encode.go on every
+   run (srcmodel_textesc); go_appendString / go_indexNeedEscapeInString are the
+   translated functions (byte strings are [list Z], [zb] embeds [list byte]).
+   The only bound is Go's own: a string is shorter than 2^63 bytes.  The library
+   calls utf8.DecodeRuneInString, strconv.AppendUint, bits.Len32 are the models
+   of Text/TextEscGoSup.v (trusted, see props/C25.json). *)
+Theorem C25_go_indexNeedEscapeInString_eq_model :
+  forall bs, (Z.of_nat (length bs) < 2^63)%Z ->
+  go_indexNeedEscapeInString (zb bs) = Val (Z.of_nat (index_need_escape bs)).
+Proof. exact go_indexNeedEscapeInString_spec. Qed.
+Print Assumptions C25_go_indexNeedEscapeInString_eq_model.
+
+(* the translated appendString equals the hand model on every input: no
+   slice-bounds panic (the "00"[k:] paddings included), no fuel exhaustion *)
+Theorem C25_go_appendString_eq_model :
+  forall out bs ascii, (Z.of_nat (length bs) < 2^63)%Z ->
+  go_appendString out (zb bs) ascii = Val (out ++ zb (append_string ascii bs))%list.
+Proof. exact go_appendString_spec. Qed.
+Print Assumptions C25_go_appendString_eq_model.
+
+(* the property itself, for the translated source: what it writes is read back
+   by parseString as exactly the input bytes, stopping after the closing quote *)
+Theorem C25_go_appendString_roundtrip :
+  forall ascii bs tail, (Z.of_nat (length bs) < 2^63)%Z ->
+  exists o, go_appendString [] (zb bs) ascii = Val o /\
+            parse_string (map z2byte o ++ tail) = SOk (bs, tail).
+Proof. exact go_appendString_roundtrip. Qed.
+Print Assumptions C25_go_appendString_roundtrip.
+
+(* with outputASCII the translated source writes printable ASCII only *)
+Theorem C25_go_appendString_ascii_printable :
+  forall bs, (Z.of_nat (length bs) < 2^63)%Z ->
+  exists o, go_appendString [] (zb bs) true = Val o /\ Forall (fun z => 32 <= z <= 126)%Z o.
+Proof. exact go_appendString_ascii_printable. Qed.
+Print Assumptions C25_go_appendString_ascii_printable.
+
+(* appending to the Encoder's buffer only prefixes it *)
+Theorem C25_go_appendString_prefix :
+  forall out bs ascii, (Z.of_nat (length bs) < 2^63)%Z ->
+  exists o, go_appendString [] (zb bs) ascii = Val o /\ go_appendString out (zb bs) ascii = Val (out ++ o)%list.
+Proof. exact go_appendString_prefix. Qed.
+Print Assumptions C25_go_appendString_prefix.
+
 (* non-vacuity / sanity: the model computes the expected literals *)
 Example C25_ex_escape :
   append_string true [x01; x22; xc3; xa9; xff; x27] =
@@ -147,3 +192,8 @@ Example C25_ex_token_hyps :
   no_quote_head (consume_ws false [x20; x23; x22; x0a; x7d]) /\
   consume_ws false ([x20; x0a] ++ append_string false [x41] ++ [x7d]) = append_string false [x41] ++ [x7d].
 Proof. split; reflexivity. Qed.
+(* the translated source computes the same literal as C25_ex_escape *)
+Example C25_ex_go_escape :
+  go_appendString [] (zb [x01; x22; xc3; xa9; xff; x27]) true =
+  Val (zb [x22; x5c; x78; x30; x31; x5c; x22; x5c; x75; x30; x30; x65; x39; x5c; x78; x66; x66; x27; x22]).
+Proof. vm_compute. reflexivity. Qed.
